@@ -305,17 +305,17 @@ static void dispatch_generate(Plan* p, Rng* r) {
   plan_env_set(p, "sched.chaos_den", 3 + (int)rng_below(r, 30));
   int nrt = 1 + (int)rng_below(r, 3);
   static const int sizes[] = { 0, 1, 2, 5, 17, 18, 19, 30, 40, 64, 128, 200, 255, 256 };
-  for (int i = 0; i < nrt; i++) { int ni = sizes[rng_below(r, 14)]; plan_add(p, D_MKTYPE, 0, 0, ni, rng_below(r, NCLS + 1), (int64_t)rng_below(r, 1000000), 0, 0, 0); }
+  for (int i = 0; i < nrt; i++) { int ni = sizes[rng_below(r, 14)]; int64_t m3 = (int64_t)rng_below(r, 1000000), m2 = rng_below(r, NCLS + 1); plan_add(p, D_MKTYPE, 0, 0, ni, m2, m3, 0, 0, 0); }
   int nops = 3 + (int)rng_below(r, 14);
   for (int i = 0; i < nops; i++) {
     uint32_t d = rng_below(r, 100);
     int64_t t = rng_chance(r, 1, 3) ? NBUILTIN_T + (int64_t)rng_below(r, (uint32_t)nrt) : (int64_t)rng_below(r, NBUILTIN_T);
-    if (d < 25) plan_add(p, D_LOOKUP, 0, 0, t, rng_below(r, 300), rng_below(r, 8), 0, 0, 0);
+    if (d < 25) { int64_t l3 = rng_below(r, 8), l2 = rng_below(r, 300); plan_add(p, D_LOOKUP, 0, 0, t, l2, l3, 0, 0, 0); }
     else if (d < 45) plan_add(p, D_SWEEP, 0, 0, t, (int64_t)rng_below(r, 1000000), 0, 0, 0, 0);
     else if (d < 60) plan_add(p, D_COOL, 0, 0, t, 0, 0, 0, 0, 0);
     else if (d < 68) plan_add(p, D_CAST, 0, 0, t, rng_below(r, NBUILTIN_T + 3), 0, 0, 0, 0);
-    else if (d < 76) plan_add(p, D_RMTYPE, 0, 0, rng_below(r, 8), sizes[rng_below(r, 14)], rng_below(r, NCLS + 1), (int64_t)rng_below(r, 1000000), 0, 0);
-    else plan_add(p, D_CONC, 0, 0, t, rng_below(r, 15), (int64_t)rng_below(r, 1000000), 0, 0, 0);
+    else if (d < 76) { int64_t q4 = (int64_t)rng_below(r, 1000000), q3 = rng_below(r, NCLS + 1), q2 = sizes[rng_below(r, 14)], q1 = rng_below(r, 8); plan_add(p, D_RMTYPE, 0, 0, q1, q2, q3, q4, 0, 0); }
+    else { int64_t c3 = (int64_t)rng_below(r, 1000000), c2 = rng_below(r, 15); plan_add(p, D_CONC, 0, 0, t, c2, c3, 0, 0, 0); }
   }
 }
 
